@@ -74,6 +74,10 @@ def run_one(mod, case):
         return _norm_result(mod.run_case(case))
     except Exception as e:  # pylint: disable=broad-except
         site = _jinns_frame(e.__traceback__)
+        if site is None and type(e).__name__ in ("UnexpectedTracerError",):
+            # a traced value escaped through a side effect: the harness functions are pure (shown by the clean tree),
+            # so the side effect is in the code under test even though JAX raises at the jit boundary
+            site = "jax-transformation-boundary"
         if site is None:
             raise
         r = _norm_result({})
@@ -95,8 +99,11 @@ def _work(item):
         if res["viol"]:
             # determinism: the same case must give the same violation keys twice
             res2 = run_one(_MOD, case)
-            k1 = sorted({(v["site"], v["kind"]) for v in res["viol"]})
-            k2 = sorted({(v["site"], v["kind"]) for v in res2["viol"]})
+            # (for exceptions only the exception type has to repeat: hidden state in the code under test may move the
+            # frame at which the same error surfaces)
+            norm = lambda v: ("*", v["kind"]) if v["kind"].startswith("raises:") else (v["site"], v["kind"])
+            k1 = sorted({norm(v) for v in res["viol"]})
+            k2 = sorted({norm(v) for v in res2["viol"]})
             if k1 != k2:
                 return idx, {"error": f"non-deterministic violation: {k1} vs {k2}", "case": case}
         res["wall"] = time.time() - t0
